@@ -310,22 +310,41 @@ def discharge(ob: Obligation, timeout_ms=20000, extra_axioms=(), use_cvc5=True):
                 ob.status = "unknown"   # no model extraction through cvc5: keep undecided
                 ob.reason = "cvc5 sat (no model imported)"
     if ob.status == "unknown":
-        # refutation by specialisation: fix the symbols that occur non-linearly (factors of products, denominators)
-        # to 1 (then 2); any model of hyps & not goal & these extra equations IS a counter-model of the obligation
+        # refutation by specialisation: fix symbols that occur non-linearly (factors of products, denominators) to
+        # concrete values, greedily and only as far as the hypotheses stay satisfiable; any model of
+        # hyps & not goal & these extra equations IS a counter-model of the obligation
         try:
-            nl = _nonlinear_vars(hyps + [goal])
-            for val in (1, 2):
-                if not nl:
+            nl = [v_ for v_ in _nonlinear_vars(hyps + [goal]) if v_.sort() != z3.BoolSort()]
+            t_end = time.time() + 25
+            for val in (1, "distinct", 2):
+                if not nl or time.time() > t_end:
                     break
+                base = z3.Solver()
+                base.set("timeout", 400)
+                for h in hyps:
+                    base.add(h)
+                for a in ax:
+                    base.add(a)
+                fixed = []
+                for j_, v_ in enumerate(nl):
+                    if time.time() > t_end:
+                        break
+                    eq = v_ == (val if val != "distinct" else j_ + 1)
+                    base.push()
+                    base.add(eq)
+                    if base.check() == z3.sat:
+                        fixed.append(eq)
+                    else:
+                        base.pop()
                 s3 = z3.Solver()
-                s3.set("timeout", 3000)
+                s3.set("timeout", 4000)
                 for h in hyps:
                     s3.add(h)
                 for a in ax:
                     s3.add(a)
                 s3.add(z3.Not(goal))
-                for v_ in nl:
-                    s3.add(v_ == val)
+                for eq in fixed:
+                    s3.add(eq)
                 if s3.check() == z3.sat:
                     ob.status = "failed"
                     ob.model = s3.model()
